@@ -247,6 +247,11 @@ func main() {
 			}
 			mu.Unlock()
 		}
+		if keep := os.Getenv("C17_KEEP"); keep != "" { // debugging aid: keep the raw records
+			if b, err := os.ReadFile(out); err == nil {
+				os.WriteFile(filepath.Join(keep, fmt.Sprintf("rec-seed%d-%d.jsonl", run.Seed, bi)), b, 0o644)
+			}
+		}
 		os.Remove(out)
 	})
 	// race detector: observations only (the statement does not promise race freedom)
